@@ -17,6 +17,13 @@ PROPS["C04"]["rule"] = (
     "always 65536, 65537, 98304, 131072, 131073; strides +-{1,2,3,4,5,7,16,33} in all sign combinations; contents position-coded / arbitrary bits / runs of +-0); "
     "random triples to n=1e5 (incl. strides +-2^30, +-(2^31-1), indices +-2^30) for reading AND for assignment of every right-hand-side kind (counts equal or off by one), "
     "bit-exact reads through conversion, operator* and iteration; histories of 16..30 valid and throwing assignments on one array (n = 7, 40, 1500, 70000) against a shadow copy; "
+    "the count rule of assignment is judged EXACTLY (third round): destination count != source count => must throw and write nothing (key C04:count-mismatch-accepted / "
+    "C04:assign-count-mismatch), in particular source count 0 on a non-empty slice and an empty slice with a non-empty source, for every spelling of a right-hand side that has a "
+    "count (named / temporary array, braced list, other-array and same-array slice through mutable / const slices, named slice objects and copies, slices materialised into "
+    "temporaries), on every destination slice of n <= 5 (8) and on unit / reversed / strided / empty destinations of n = 64..65537 (131075); both counts 0 => nothing written "
+    "(an empty ARRAY right-hand side is itself sliced and may throw, lists and slices must be accepted); histories contain shorter, EMPTY and longer right-hand sides; "
+    "end placeholder: slice(i1, end, step) for every step of the box incl. 0 and negative ones and slice(i1, end) / slice(i1, i2) with the DEFAULT step, const and mutable overloads, "
+    "real and complex, also as destination / source of assignments and on random large arrays; "
     "distinct = distinct protocol lines + oracle-only cases (reads, history steps); non-trivial = all (every line is a different argument tuple)"
 )
 
